@@ -258,7 +258,7 @@ class _Redis(Backend):
             bitops.incrby(  # type: ignore[attr-defined]
                 fmt=f"u{size}", offset=f"#{index}", increment=by, overflow="SAT"
             )
-        return tuple(await bitops.execute())  # type: ignore[attr-defined]
+        return tuple(await bitops.execute() or [])  # type: ignore[attr-defined]
 
     async def ping(self, message: bytes | None = None) -> bytes:
         await self._client.ping()
